@@ -36,7 +36,7 @@ def run(prog, rep):
     pu = prog.unit("puthread-posix.c")
 
     # ---- C05.1 -----------------------------------------------------------------
-    cf = u.fn("p_uthread_create_full")
+    cf = u.fn("p_uthread_create_full").inlined()
     problems = []
     init_fields = set()
     created = [0]
@@ -80,7 +80,7 @@ def run(prog, rep):
     if not problems:
         rep.ob("C05.1", cf, "creator", created[0] > 0 and len(init_fields) >= 4,
                "native create and the stores to %s all happen under the creation spinlock, which is released on every path" % sorted(init_fields), cf.loc[0])
-    px = u.fn("pp_uthread_proxy")
+    px = u.fn("pp_uthread_proxy").inlined()
     # position of the lock/unlock pass
     locks = [(b, i) for (b, i, c) in px.calls() if c.get("callee") == "p_spinlock_lock" and root_var(c["args"][0]) == SPIN]
     unlocks = [(b, i) for (b, i, c) in px.calls() if c.get("callee") == "p_spinlock_unlock" and root_var(c["args"][0]) == SPIN]
@@ -108,7 +108,7 @@ def run(prog, rep):
            "a created handle starts with ref_count %s: the running thread's own reference, dropped by the TLS destructor at exit, is not accounted for at "
            "creation, so the handle can be released while the thread is still starting" % (show(st_cf[0][3]["r"]) if st_cf else "<unset>"),
            st_cf[0][3] if st_cf else cf.loc[0])
-    cur = u.fn("p_uthread_current")
+    cur = u.fn("p_uthread_current").inlined()
     st_cur = [(b, i, f, n) for (b, i, f, n) in stores_in(cur) if f == "ref_count"]
     ok = len(st_cur) == 1 and cv(st_cur[0][3]["r"]) == 1
     rep.ob("C05.2", cur, "count:adopt", ok, "an adopted foreign thread starts with ref_count 1" if ok else "adopted handle ref_count is not 1", cur.loc[0])
@@ -119,7 +119,7 @@ def run(prog, rep):
     for un, unit in sorted(prog.units.items()):
         if not un.startswith("puthread"):
             continue
-        for fn in unit.functions.values():
+        for fn in unit.roots():
             okset = set()
             for b, i, c in fn.calls():
                 if c.get("callee") in ("p_atomic_int_inc", "p_atomic_int_dec_and_test"):
@@ -139,7 +139,7 @@ def run(prog, rep):
     rep.ob("C05.2", cf, "count:atomic", not bad and n_atomic >= 2,
            "after initialisation ref_count is touched only through p_atomic_int_inc / p_atomic_int_dec_and_test (%d sites)" % n_atomic if not bad else
            "%s touches ref_count with a plain access at line %d" % (bad[0][0].name, line(bad[0][1])), bad[0][1] if bad else cf.loc[0])
-    un = u.fn("p_uthread_unref")
+    un = u.fn("p_uthread_unref").inlined()
     rel = []
 
     def s2(st, b, i, stmt):
@@ -160,16 +160,16 @@ def run(prog, rep):
     okr = okr and any(k.endswith("->name") for k in freed) and (p0 in freed or "base_thread" in freed)
     rep.ob("C05.2", un, "release", okr, "the name and the handle are released exactly on the path where dec_and_test returned TRUE" if okr else
            "unref releases the handle without dec_and_test having returned TRUE, or does not release name and handle", un.loc[0])
-    ini = u.fn("p_uthread_init")
+    ini = u.fn("p_uthread_init").inlined()
     okd = False
     for b, i, c in ini.calls():
         if c.get("callee") == "p_uthread_local_new":
             a = strip_casts(c["args"][0])
             if a is not None and a["k"] == "ref" and a["name"] == "pp_uthread_cleanup":
                 okd = True
-    cu = u.fn("pp_uthread_cleanup")
+    cu = u.fn("pp_uthread_cleanup").inlined()
     okd2 = any(c.get("callee") == "p_uthread_unref" and root_var(c["args"][0]) == cu.param_names()[0] for (b, i, c) in cu.calls())
-    pub = [(b, i) for (b, i, c) in px.calls() if c.get("callee") == "p_uthread_set_local" and root_var(c["args"][0]) == TLS and root_var(c["args"][1]) == px.param_names()[0]]
+    pub = [(b, i) for (b, i, c) in px.calls() if c.get("callee") == "p_uthread_set_local" and root_var(c["args"][0]) == TLS and root_var(c["args"][1]) in px.value_aliases(px.param_names()[0])]
     okd3 = len(pub) == 1
     rep.ob("C05.2", ini, "own-ref", okd and okd2 and okd3,
            "the library TLS slot is created with pp_uthread_cleanup, which unrefs; the new thread publishes its handle in that slot" if (okd and okd2 and okd3) else
@@ -177,7 +177,7 @@ def run(prog, rep):
     rep.floor("C05.2", 5)
 
     # ---- C05.3 ---------------------------------------------------------------------
-    jn = u.fn("p_uthread_join")
+    jn = u.fn("p_uthread_join").inlined()
     waits = [(b, i, c) for (b, i, c) in jn.calls() if c.get("callee") == "p_uthread_wait_internal"]
     okj, msg = True, ""
     if len(waits) != 1 or root_var(waits[0][2]["args"][0]) != jn.param_names()[0]:
@@ -212,11 +212,11 @@ def run(prog, rep):
             if not any(fk.endswith("->joinable") and ((fop == "!=" and fv == 0) or (fop == "==" and fv == 1)) for (fk, fop, fv) in f):
                 okj, msg = False, "the native wait is reached without the joinable flag tested true (joining a detached thread is undefined)"
     rep.ob("C05.3", jn, "join", okj, "join refuses non-joinable handles, waits on its own handle, then returns ret_code" if okj else msg, jn.loc[0])
-    wi_ = pu.fn("p_uthread_wait_internal")
+    wi_ = pu.fn("p_uthread_wait_internal").inlined()
     pj = [c for (b, i, c) in wi_.calls() if c.get("callee") == "pthread_join"]
     okw = len(pj) == 1 and guards.key(pj[0]["args"][0]) == "%s->hdl" % wi_.param_names()[0]
     rep.ob("C05.3", wi_, "wait", okw, "pthread_join (thread->hdl)" if okw else "wait_internal does not pthread_join the handle's own native thread", wi_.loc[0])
-    ex = u.fn("p_uthread_exit")
+    ex = u.fn("p_uthread_exit").inlined()
     st_ex = [(b, i, f, n) for (b, i, f, n) in stores_in(ex) if f == "ret_code"]
     exi = [(b, i, c) for (b, i, c) in ex.calls() if c.get("callee") == "p_uthread_exit_internal"]
     oke = len(st_ex) == 1 and len(exi) == 1 and root_var(st_ex[0][3]["r"]) == ex.param_names()[0] and \
@@ -237,7 +237,7 @@ def run(prog, rep):
     rep.ob("C05.3", ex, "exit", oke, "exit stores the code into the current library thread's handle before the native exit" if oke else
            "exit does not store its code (for library threads only) before the native exit", ex.loc[0])
     bad = [n for (b, i, f, n) in stores_in(px) if f == "ret_code"]
-    ci = pu.fn("p_uthread_create_internal")
+    ci = pu.fn("p_uthread_create_internal").inlined()
     allocs = [c for (b, i, c) in ci.calls() if c.get("callee") in ("p_malloc0", "p_malloc")]
     okz = not bad and len(allocs) == 1 and allocs[0].get("callee") == "p_malloc0"
     rep.ob("C05.3", px, "proxy:code", okz, "a thread function that simply returns leaves ret_code at its zero initialisation (p_malloc0)" if okz else
@@ -260,10 +260,10 @@ def run(prog, rep):
                 if fp is not None and fp["k"] == "member" and fp["field"] == "free_func":
                     indirect.setdefault(fn.name, []).append((b, i, c))
     ok4 = set(indirect) == {"p_uthread_replace_local"}
-    rep.ob("C05.4", pu.fn("p_uthread_set_local"), "notifier:callers", ok4,
+    rep.ob("C05.4", pu.fn("p_uthread_set_local").inlined(), "notifier:callers", ok4,
            "the key's notifier is invoked only from p_uthread_replace_local" if ok4 else
-           "the key's notifier is invoked from %s: p_uthread_set_local must never run it and only replace_local may" % sorted(indirect), pu.fn("p_uthread_set_local").loc[0])
-    rl = pu.fn("p_uthread_replace_local")
+           "the key's notifier is invoked from %s: p_uthread_set_local must never run it and only replace_local may" % sorted(indirect), pu.fn("p_uthread_set_local").inlined().loc[0])
+    rl = pu.fn("p_uthread_replace_local").inlined()
     okg, msg = True, ""
     calls_seen = []
 
@@ -290,7 +290,7 @@ def run(prog, rep):
         if not getv or not any(fop == "=:" and fk == arg and fv == guards.key(getv[0]) for (fk, fop, fv) in f):
             okg, msg = False, "line %d: the notifier is not given the value previously stored in the slot" % line(c)
     rep.ob("C05.4", rl, "notifier:guard", okg, "the notifier gets the old slot value, under old != NULL && notifier != NULL, before the new value is stored" if okg else msg, rl.loc[0])
-    gk = pu.fn("pp_uthread_get_tls_key")
+    gk = pu.fn("pp_uthread_get_tls_key").inlined()
     kc = [c for (b, i, c) in gk.calls() if c.get("callee") == "pthread_key_create"]
     okk = len(kc) == 1 and guards.key(kc[0]["args"][1]).endswith("->free_func")
     rep.ob("C05.4", gk, "notifier:native", okk, "the native key is created with the key's notifier as thread-exit destructor" if okk else
